@@ -51,14 +51,32 @@ func c13Config(r *scen.Rng, sc *scen.Scenario, nCalls int, tasks int) (tk int) {
 	op := scen.Op{Op: "new_root", R: 1, Name: "f", Named: true}
 	nextW := 1
 	for _, class := range []string{"writer", "errwriter"} {
-		op.Opts = append(op.Opts, scen.Op{Kind: class, W: nextW, WK: scen.Pick(r, []string{"plain", "logwriter", "levelsettable"})})
+		lastWK := scen.Pick(r, []string{"plain", "logwriter", "levelsettable"})
+		op.Opts = append(op.Opts, scen.Op{Kind: class, W: nextW, WK: lastWK})
 		nextW++
 		extra := r.Intn(3)
 		if r.Chance(1, 12) {
 			extra = r.Range(8, 14) // a long list: many members can fail on one record
 		}
+		// one configuration in five registers a destination a second time (the member just registered, or the
+		// first one of the list): a list in which two members are the same destination
+		dups := r.Chance(1, 5)
+		firstW, firstWK := nextW-1, lastWK
 		for k := extra; k > 0; k-- {
+			if dups && r.Chance(1, 2) {
+				if r.Chance(2, 3) {
+					op.Opts = append(op.Opts, scen.Op{Kind: "add_" + class, W: nextW - 1, WK: lastWK})
+				} else {
+					op.Opts = append(op.Opts, scen.Op{Kind: "add_" + class, W: firstW, WK: firstWK})
+				}
+				continue
+			}
+			lastWK = "plain"
 			op.Opts = append(op.Opts, scen.Op{Kind: "add_" + class, W: nextW, WK: "plain"})
+			nextW++
+		}
+		if dups && extra == 0 {
+			op.Opts = append(op.Opts, scen.Op{Kind: "add_" + class, W: firstW, WK: firstWK}, scen.Op{Kind: "add_" + class, W: nextW, WK: "plain"})
 			nextW++
 		}
 	}
@@ -322,7 +340,12 @@ func (p *C13) Check(sc *scen.Scenario, run *orch.Run, env *orch.Env) []orch.Viol
 		}
 		for _, w := range sortedKeysInt(ids) {
 			evs := perW[w]
-			if len(evs) != want[w] {
+			// a destination registered k > 1 times in the selected list: the statement does not say whether a
+			// list may skip the later registrations of a member that has just been written (or has just failed),
+			// so 1..k attempts are accepted for it; every other destination is still attempted exactly once
+			if want[w] > 1 && len(evs) >= 1 && len(evs) <= want[w] {
+				// accepted
+			} else if len(evs) != want[w] {
 				add("C13.delivery", fmt.Sprintf("%s %s got=%d want=%d", mode, class, min(len(evs), 3), want[w]),
 					"%s %s (%s): destination %d saw the record %d time(s), expected %d; selected %v, record attempts %s, diagnostics %d",
 					op.Entry, op.Tok, model.LevelName(op.Lvl), w, len(evs), want[w], sel, attemptsString(rec), len(diag))
@@ -352,7 +375,7 @@ func (p *C13) Check(sc *scen.Scenario, run *orch.Run, env *orch.Env) []orch.Viol
 		for _, w := range sortedKeysInt(keysOfInt(perD)) {
 			if !model.Contains(warnSel, w) {
 				add("C13.diagnostic", mode+" wrong-destination", "a diagnostic went to destination %d which is not a warning destination %v", w, warnSel)
-			} else if perD[w] > 1 {
+			} else if perD[w] > max(1, countInt(warnSel, w)) {
 				add("C13.cascade", mode+" repeated", "%s %s: destination %d received %d diagnostics for one failing call (at most one is allowed): attempts %s", op.Entry, op.Tok, w, perD[w], attemptsString(diag))
 			}
 		}
@@ -522,4 +545,14 @@ func (p *C13) Classify(sc *scen.Scenario, run *orch.Run) (string, bool) {
 		}
 	}
 	return fmt.Sprintf("%x", scen.HashString(sb.String())), nt
+}
+
+func countInt(l []int, w int) int {
+	n := 0
+	for _, x := range l {
+		if x == w {
+			n++
+		}
+	}
+	return n
 }
